@@ -134,6 +134,12 @@ class RecDom(RecorderDomain):
 
     def on_stmt(self, node, state):
         r = self.roles
+        if node.kind == 'stmt' and node.frame.parent is None and isinstance(node.ast, (ast.Assign, ast.Expr, ast.AugAssign, ast.Return)) and \
+                not state.extra.get('argtouch'):
+            fa = node.frame.func.node.args
+            star = {a.arg for a in (fa.vararg, fa.kwarg) if a is not None}
+            if star and any(isinstance(x, ast.Subscript) and isinstance(x.value, ast.Name) and x.value.id in star for x in ast.walk(node.ast)):
+                state = state.with_extra(argtouch=True)
         if node.kind == 'join' and node.info.get('finally_tag') and node.frame.func is r.start:
             state = state.with_extra(scope_exit=node.info['finally_tag'])
         if node.kind == 'stmt' and isinstance(node.ast, ast.Assign) and node.frame.func is r.force and \
@@ -450,6 +456,37 @@ def options_forwarded_clause(ctx, res, prop, clause_id, kinds=('input', 'output'
                 res.add(Finding(prop, clause_id, 'R-SIBLING', m.file, m.qualname, call.lineno, 'options %s of %s' % (missing, m.name),
                                 'the public decorator %s accepts %s but does not hand %s to %s: the option is silently ignored for this '
                                 'variant (the implementation falls back to its default)' % (m.name, missing, 'it' if len(missing) == 1 else 'them', fac.name)))
+
+
+def ordinals_only_when_intercepted_clause(ctx, res, prop, clause_id):
+    """an output call that is not intercepted (nested in another interception, recording disabled, no scope open) consumes no
+    ordinal: otherwise recorded and replayed ordinals differ, because calls nested in an intercepted input do not happen in replay"""
+    from ..report import Finding
+    roles = ctx.roles
+    c = res.clause(clause_id, 'R-DOM', 'a pass-through output call consumes no ordinal and appends nothing', floor=2)
+    fac, deco, cl = roles.closures['output']
+    for variant in ('idle', 'recording', 'playback'):
+        d = run_closure(ctx, 'output', variant)
+        c.evaluations += d.visited_pairs
+        bad = None
+        n_pt = 0
+        for n, s in d.exits:
+            if variant != 'idle' and interception_due(d, s):
+                continue
+            if d.n(s, 'enter:executor') or d.n(s, 'enter:reader') or d.n(s, 'enter:record_output'):
+                continue          # the call was intercepted after all (flags not decisive on this path)
+            n_pt += 1
+            w = [k for k in ('counter-inc', 'outputs-append') if d.n(s, k)]
+            if w and bad is None:
+                bad = (n, s, w)
+        c.instance('output decorator (%s valuation): %d pass-through exits without counter / outputs writes' % (variant, n_pt), cl.qualname,
+                   bad is None)
+        if bad:
+            n, s, w = bad
+            res.add(Finding(prop, clause_id, 'R-DOM', cl.file, cl.qualname, cl.node.lineno, 'pass-through writes: ' + ','.join(w),
+                            'an output call that is not intercepted still performs %s: ordinals recorded for the intercepted calls are shifted by '
+                            'calls that do not take place (or are not numbered) during replay' % ','.join(w),
+                            witness=d.path_to(n, s), entry=cl.qualname, exit=exit_kind(n)))
 
 
 def stateful_constructs(func):
